@@ -15,3 +15,11 @@ impl<S> CondSend for S where S: Send {}
 
 #[cfg(target_arch = "wasm32")]
 impl<S> CondSend for S {}
+
+/// Verification hooks: compiled only with `--cfg eigerco_lumina_verif` (see /verif).
+#[cfg(eigerco_lumina_verif)]
+#[doc(hidden)]
+#[allow(unused_imports, missing_docs, dead_code, unreachable_pub)]
+pub mod verif {
+    use super::*;
+}
